@@ -54,3 +54,14 @@ impl Arg {
     pub fn value_delimiter(self, c: char) -> (r: Arg)
         ensures r.delim@ == Some(c), r.id == self.id, r.action == self.action, r.nargs == self.nargs, r.parser == self.parser { unimplemented!() }
 }
+
+/// clap::ArgMatches as far as `keygen` reads its `--seed` option: the option's single value if it was given (clap: `get_one` returns
+/// `None` exactly when the option is absent; an EMPTY value is a value)
+pub struct VSeedMatches { _p: u8 }
+impl VSeedMatches {
+    pub uninterp spec fn seed(&self) -> Option<Seq<char>>;
+    #[verifier::external_body]
+    pub fn get_one_string(&self, id: &str) -> (r: Option<&String>)
+        ensures id@ == "seed"@ ==> (r is Some) == (self.seed() is Some) && (r is Some ==> r->Some_0@ == self.seed()->Some_0),
+    { unimplemented!() }
+}
